@@ -418,3 +418,50 @@ package randomness
 //@     invariant 0 <= i && i <= M
 //@   loop 7
 //@     invariant 0 <= i && i <= M
+
+//@ func LinearComplexityProto
+//@   requires 1 <= m && m <= len(bits)
+//@   modifies nothing
+//@   pure
+//@   loop 1
+//@     invariant 0 <= i && i <= N && len(arr) == m && fresh(arr) && len(v) == 7 && fresh(v) && len(pi) == 7 && fresh(pi) && ref(v) != ref(pi)
+//@     invariant bits == bits@pre[i*m:]
+//@     invariant v[0] + v[1] + v[2] + v[3] + v[4] + v[5] + v[6] == real(i)
+//@     invariant pi[0] == 0.010417 && pi[1] == 0.03125 && pi[2] == 0.125 && pi[3] == 0.5 && pi[4] == 0.25 && pi[5] == 0.0625 && pi[6] == 0.020833
+//@   loop 2
+//@     invariant 0 <= j && j <= m
+//@     invariant bits == bits@pre[i*m + j:]
+//@     invariant forall t int :: {arr[t]} 0 <= t && t < j ==> arr[t] == bits@pre[i*m + t]
+//@   loop 3
+//@     unroll
+//@   assert in loop 3: sqdev(v[i], real(N) * pi[i]) == (v[i] - real(N) * pi[i]) * (v[i] - real(N) * pi[i]) / (real(N) * pi[i])
+
+// ---------------------------------------------------------------------------------------------
+// maurers_universal.go
+// The seven-step window loops are unrolled (L = 7 is a literal); tmp wraps, only its low 7 bits are observed.
+
+//@ func mutFactorC
+//@   requires L >= 1 && K >= 1
+//@   modifies nothing
+//@   ensures r0 == 0.7 - 0.8 / real(L) + (4.0 + 32.0 / real(L)) * (powR(real(K), -3.0 / real(L)) / 15.0)
+
+//@ func MaurerUniversalTest
+//@   requires len(bits) >= 8967
+//@   modifies nothing
+//@   pure
+//@   wraps tmp
+//@   loop 1
+//@     invariant 1 <= i && i <= Q + 1
+//@     invariant bits == bits@pre[(i-1)*7:]
+//@     invariant forall v int :: {T[v]} 0 <= v && v < 128 ==> T[v] == lastocc(bits@pre, v, i-1) && 0 <= T[v] && T[v] < i
+//@   loop 2
+//@     unroll
+//@   loop 3
+//@     invariant Q + 1 <= i && i <= Q + K + 1
+//@     invariant bits == bits@pre[(i-1)*7:]
+//@     invariant forall v int :: {T[v]} 0 <= v && v < 128 ==> T[v] == lastocc(bits@pre, v, i-1) && 0 <= T[v] && T[v] < i
+//@     invariant sum == msum(bits@pre, i-1)
+//@   loop 4
+//@     unroll
+//@   assert end loop 1: emod(tmp, 128) == pat(bits@pre, (i-1)*7, 7)
+//@   assert end loop 3: emod(tmp, 128) == pat(bits@pre, (i-1)*7, 7)
